@@ -533,6 +533,16 @@ class ExprMixin:
       ca = recv.module.class_attr(recv.clsname, attr)
       if ca is not None:
         return self._eval_in_module(recv.module, ca)
+      # the run-time class of the object is a subclass defined in another module (declared in the theory):
+      # its methods are looked up there
+      for rp2, cn2 in getattr(self.theory, 'runtime_class', {}).get((recv.module.relpath, recv.clsname), ()):
+        from engine import source
+        m2 = source.load(self.repo, rp2)
+        q = m2.resolve_method(cn2, attr)
+        if q:
+          if 'property' in source.decorators(m2.defs[q]):
+            return self.call_func(FuncRef(m2, q, bound_self=recv), [], {}, node)
+          return FuncRef(m2, q, bound_self=recv)
       raise ContractMisfit('object %s has no field %s' % (recv.clsname, attr))
     if isinstance(recv, ModuleRef):
       if recv.module is None:
